@@ -15,6 +15,14 @@ package proxy
 // handler) answer after scripted delays on the simulated clock. The driver fires Shutdown at an
 // arbitrary step of the shutdown instant.
 //
+// Connections that have not (yet) spoken the protocol of their listener (item kind "raw") are open work
+// too: a client that connects and never sends a byte, one that sends only a proper prefix of what the
+// listener needs before it can start (HTTP: part of the request head; tcp+sni: part of a ClientHello; tcp:
+// part of the greeting the upstream waits for; gRPC: part of the HTTP/2 client preface, or the whole
+// preface without the SETTINGS frame), and on gRPC listeners a client that completes the HTTP/2 handshake
+// and never starts a call. Each of them stays, or goes away (FIN or RST) before the shutdown, during the
+// drain or after the deadline; never-ending HTTP requests and tunnels may lose their client the same way.
+//
 // Fault "accept error": the accept loop of a listener fails with a permanent error at a scripted
 // instant not later than the shutdown instant (Serve returns on its own while the connections it
 // has accepted still carry work); Shutdown follows, as main.go does through exit.Fatal.
@@ -29,13 +37,14 @@ package proxy
 //
 // Oracle, from the statement:
 //  (1) a connection attempt made after the first quiescent point that follows the Shutdown call is
-//      refused or never served;
+//      refused or never served (a raw connection: refused or never greeted - no byte from the listener);
 //  (2) an item whose backend had it in hand before the Shutdown call and whose script finishes
 //      before t0 + wait completes normally (full response / all bytes both ways / OK + reply),
 //      and Shutdown does not return at an instant before that item's script has finished: the
 //      process exits when Shutdown returns (main.go: the exit handler ends with proxy.Shutdown,
 //      then os.Exit), so work that is still running at that instant is cut off;
-//  (3) Shutdown has returned by t0 + wait whatever is still open.
+//  (3) Shutdown has returned by t0 + wait whatever is still open, raw connections included (they are
+//      judged by nothing else: no backend ever has them in hand).
 
 import (
 	"bufio"
@@ -132,10 +141,22 @@ type c18Item struct {
 	Up      string `json:"upstream,omitempty"` // sni: own upstream
 	Name    string `json:"server_name,omitempty"`
 	Client  string `json:"client"`
+	// Pre: kind "raw" only: what the client does after connecting: silent (nothing, ever) | partial (a
+	// proper prefix of what the listener needs before it can start, cut at Cut) | preface (gRPC: the whole
+	// HTTP/2 client preface, no SETTINGS frame) | idle (gRPC: preface and SETTINGS, the handshake
+	// completes, no call follows)
+	Pre string `json:"pre_protocol,omitempty"`
+	Cut string `json:"cut,omitempty"` // 1-byte | half | all-but-last-byte | boundary
+	// Leave: the client goes away at LeaveAt (offset from the start of the run): fin | rst; empty: it stays
+	// for the whole run. Raw items and never-ending items only (gRPC: the connection of the call's
+	// ClientConn is closed or reset underneath it).
+	Leave   string        `json:"client_leaves,omitempty"`
+	LeaveAt time.Duration `json:"client_leaves_at,omitempty"`
 
 	// built inside the bubble
 	marker  []byte
 	hello   []byte
+	pre     []byte // raw: what the client sends
 	reqs    [][]byte
 	replies [][]byte
 
@@ -174,6 +195,9 @@ const c18GrpcBackend = "10.2.0.50:9100"
 
 // label names the kind of an item in probes and signatures.
 func (it *c18Item) label() string {
+	if it.Kind == "raw" {
+		return "raw-" + it.Pre
+	}
 	if it.Proxied {
 		return "proxied-" + it.Kind
 	}
@@ -347,6 +371,11 @@ func c18Gen(g *simcore.Tape, thorough bool) *c18Scenario {
 			if it.Kind == "http" && !it.Forever && it.Start+it.Dur < A {
 				it.Hold = g.Bool()
 			}
+			if it.Forever && g.Chance(40) {
+				// the client of never-ending work goes away
+				it.Leave = simcore.Pick(g, []string{"fin", "rst"})
+				it.LeaveAt = c18LeaveAt(g, it.Start+it.Idle, A, W)
+			}
 		} else if it.Kind == "sni" {
 			it.Idle = time.Millisecond
 		}
@@ -366,6 +395,62 @@ func c18Gen(g *simcore.Tape, thorough bool) *c18Scenario {
 		if it.Start+it.Idle > end {
 			end = it.Start + it.Idle
 		}
+		if it.LeaveAt > end {
+			end = it.LeaveAt
+		}
+		sc.Items = append(sc.Items, it)
+	}
+	// connections that have not (yet) spoken the protocol of their listener
+	nr := g.Intn(4)
+	if thorough {
+		nr = g.Intn(7)
+	}
+	for k := 0; k < nr; k++ {
+		it := &c18Item{ID: fmt.Sprintf("r%02d", k), Kind: "raw"}
+		it.Lis = g.Intn(nl)
+		l := sc.Listeners[it.Lis]
+		pres := c18Pres[:2]
+		if l.Kind == "grpc" || l.Kind == "grpc-proxy" {
+			pres = c18Pres
+		}
+		it.Pre = simcore.Pick(g, pres)
+		if it.Pre == "partial" {
+			it.Cut = simcore.Pick(g, c18Cuts)
+			if l.Kind == "sni" {
+				it.Name = it.ID + ".example.com"
+			}
+		}
+		it.Client = fmt.Sprintf("192.0.2.%d:5000", 100+k)
+		if strings.Contains(l.host, ":") {
+			it.Client = fmt.Sprintf("[2001:db8::1:%x]:5000", 16+k)
+		}
+		switch c := g.Intn(8); {
+		case c <= 4:
+			it.When = "before"
+			it.Start = A * time.Duration(g.Intn(3)) / 4
+			if A == 0 {
+				it.When = "same-instant"
+			}
+		case c == 5:
+			it.When = "same-instant"
+			it.Start = A
+		default:
+			it.When = "late"
+			off := simcore.Pick(g, []time.Duration{time.Millisecond, W / 2, W - time.Millisecond, W, W + time.Millisecond, W + time.Second})
+			if off <= 0 {
+				off = time.Millisecond
+			}
+			it.Start = A + off
+		}
+		if it.Leave = simcore.Pick(g, []string{"", "fin", "rst"}); it.Leave != "" {
+			it.LeaveAt = c18LeaveAt(g, it.Start, A, W)
+		}
+		if it.Start > end {
+			end = it.Start
+		}
+		if it.LeaveAt > end {
+			end = it.LeaveAt
+		}
 		sc.Items = append(sc.Items, it)
 	}
 	sc.End = end + time.Second
@@ -383,6 +468,63 @@ func c18Gen(g *simcore.Tape, thorough bool) *c18Scenario {
 		}
 	}
 	return sc
+}
+
+// c18Pres are the behaviours of a raw connection (the last two on gRPC listeners only); c18Cuts are the
+// places at which a partial greeting stops.
+var c18Pres = []string{"silent", "partial", "preface", "idle"}
+var c18Cuts = []string{"1-byte", "half", "all-but-last-byte", "boundary"}
+
+// c18HTTP2Preface is the HTTP/2 client connection preface (RFC 9113, 3.4); c18HTTP2Settings an empty SETTINGS frame.
+const c18HTTP2Preface = "PRI * HTTP/2.0\r\n\r\nSM\r\n\r\n"
+
+var c18HTTP2Settings = []byte{0, 0, 0, 4, 0, 0, 0, 0, 0}
+
+// c18LeaveAt draws the instant at which a client that is connected from `from` on goes away: half a wait
+// into the drain (counted from its connect if that is later), 1ms into it, 1ms before the deadline, 1ms
+// after it, or before the shutdown instant.
+func c18LeaveAt(g *simcore.Tape, from, A, W time.Duration) time.Duration {
+	base := A
+	if from > base {
+		base = from
+	}
+	var at time.Duration
+	switch g.Intn(5) {
+	case 0:
+		at = base + W/2
+	case 1:
+		at = base + time.Millisecond
+	case 2:
+		at = A + W - time.Millisecond
+	case 3:
+		at = A + W + time.Millisecond
+	case 4:
+		at = from + (A-from)/2
+	}
+	if at < from {
+		at = from
+	}
+	return at
+}
+
+// c18Partial cuts the greeting full (boundary: the length of its first structural part).
+func c18Partial(full []byte, boundary int, cut string) []byte {
+	n := 1
+	switch cut {
+	case "half":
+		n = len(full) / 2
+	case "all-but-last-byte":
+		n = len(full) - 1
+	case "boundary":
+		n = boundary
+	}
+	if n >= len(full) {
+		n = len(full) - 1
+	}
+	if n < 1 {
+		n = 1
+	}
+	return append([]byte(nil), full[:n]...)
 }
 
 // finish is the instant (offset from the start of the run) at which the item's script ends.
@@ -515,6 +657,7 @@ type c18Peer struct {
 	complete   bool
 	completeAt time.Time
 	phase      string // of the connection attempt: before | gray | after
+	leftPhase  string // of the instant the client went away (Leave), empty while it is there
 }
 
 type c18Env struct {
@@ -781,7 +924,12 @@ func (p *c18Peer) actor(e *c18Env) {
 		e.mu.Unlock()
 		switch a.Kind {
 		case "dial":
-			c, err := e.net.Dial(e.r.Ctx(), p.from, p.key, 0)
+			nw := e.net
+			lk := e.sc.Listeners[p.it.Lis].Kind
+			if lk == "grpc" || lk == "grpc-proxy" {
+				nw = e.gnet // raw connections to a gRPC listener
+			}
+			c, err := nw.Dial(e.r.Ctx(), p.from, p.key, 0)
 			e.mu.Lock()
 			if err != nil {
 				p.dead, p.dialErr = true, err
@@ -790,6 +938,13 @@ func (p *c18Peer) actor(e *c18Env) {
 			}
 			p.conn = c.(*simnet.Conn)
 			e.mu.Unlock()
+			if p.it.Kind == "raw" && lk == "http" {
+				// net/http closes a connection that has not sent a request head after about 5 s at one
+				// of the polling instants of Shutdown, which are jittered with math/rand: nothing the
+				// server does to this connection may reach the schedule or the trace. The client is a
+				// peer whose side of the path is dead: what the server sends is never delivered.
+				p.conn.Peer().Stall(true)
+			}
 			if !p.it.Stall {
 				go p.reader(e)
 			}
@@ -802,10 +957,16 @@ func (p *c18Peer) actor(e *c18Env) {
 				}
 				e.mu.Unlock()
 			}
-		case "close":
+		case "close", "leave-fin":
 			conn.Close()
+		case "leave-rst":
+			conn.Reset()
 		case "call":
-			e.grpcCall(p)
+			if p.it.Leave != "" {
+				go e.grpcCall(p) // the actor goes on to the instant at which the client goes away
+			} else {
+				e.grpcCall(p)
+			}
 		}
 		e.mu.Lock()
 		p.next++
@@ -819,7 +980,7 @@ func (p *c18Peer) reader(e *c18Env) {
 		n, err := p.conn.Read(buf)
 		e.mu.Lock()
 		p.recv = append(p.recv, buf[:n]...)
-		if !p.complete {
+		if !p.complete && p.it.Kind != "raw" {
 			if p.it.Kind == "http" {
 				_, _, p.complete = c18ParseHTTP(p.recv)
 			} else {
@@ -865,7 +1026,13 @@ func (e *c18Env) grpcCall(p *c18Peer) {
 	cc, err := grpc.NewClient("passthrough:///"+p.key,
 		grpc.WithTransportCredentials(insecure.NewCredentials()),
 		grpc.WithContextDialer(func(ctx context.Context, addr string) (net.Conn, error) {
-			return e.gnet.Dial(ctx, p.from, addr, 0)
+			c, err := e.gnet.Dial(ctx, p.from, addr, 0)
+			if sc, ok := c.(*simnet.Conn); ok && err == nil {
+				e.mu.Lock()
+				p.conn = sc
+				e.mu.Unlock()
+			}
+			return c, err
 		}))
 	if err != nil {
 		done("client: "+err.Error(), "")
@@ -955,6 +1122,16 @@ func (e *c18Env) events() []simcore.Event {
 					p.phase = "gray"
 				default:
 					p.phase = "after"
+				}
+			}
+			if a.Kind == "leave-fin" || a.Kind == "leave-rst" {
+				switch {
+				case !e.sdStarted:
+					p.leftPhase = "before"
+				case !e.begun:
+					p.leftPhase = "gray"
+				default:
+					p.leftPhase = "after"
 				}
 			}
 			p.idle = false
@@ -1091,6 +1268,36 @@ func runC18(r *simcore.Run) {
 				r.Trouble("no ClientHello for %s", it.Name)
 				return
 			}
+		case "raw":
+			var full []byte
+			boundary := 0
+			switch sc.Listeners[it.Lis].Kind {
+			case "http":
+				full = []byte(fmt.Sprintf("GET /%s HTTP/1.1\r\nHost: fabio.sim\r\nX-Sim-Id: %s\r\n\r\n", it.ID, it.ID))
+				boundary = bytes.Index(full, []byte("\r\n")) + 2 // the request line
+			case "tcp":
+				full = []byte(fmt.Sprintf("<%-6s>", it.ID)) // the upstream waits for 8 bytes
+				boundary = 4
+			case "sni":
+				if it.Pre == "partial" {
+					if full = c18ClientHello(it.Name); full == nil {
+						r.Trouble("no ClientHello for %s", it.Name)
+						return
+					}
+				}
+				boundary = 5 // the TLS record header
+			default:
+				full = []byte(c18HTTP2Preface)
+				boundary = len("PRI * HTTP/2.0\r\n\r\n")
+			}
+			switch it.Pre {
+			case "partial":
+				it.pre = c18Partial(full, boundary, it.Cut)
+			case "preface":
+				it.pre = full
+			case "idle":
+				it.pre = append(full, c18HTTP2Settings...)
+			}
 		case "grpc-unary", "grpc-stream", "grpc-sstream":
 			// printable payloads: they travel as protobuf strings
 			for k := range it.reqs {
@@ -1214,7 +1421,9 @@ func runC18(r *simcore.Run) {
 				fmt.Fprintf(&b, "GET /%s HTTP/1.1\r\nHost: fabio.sim\r\nX-Sim-Id: %s\r\n\r\n", it.ID, it.ID)
 			}
 			acts := []c18Act{{Kind: "dial", At: at(it.Start)}, {Kind: "write", Data: b.Bytes()}}
-			if !it.Stall {
+			if it.Leave != "" {
+				acts = append(acts, c18Act{Kind: "leave-" + it.Leave, At: at(it.LeaveAt)})
+			} else if !it.Stall {
 				acts = append(acts, c18Act{Kind: "awaithttp"})
 				if !it.Hold {
 					acts = append(acts, c18Act{Kind: "close"})
@@ -1241,10 +1450,25 @@ func runC18(r *simcore.Run) {
 			}
 			if !it.Forever {
 				acts = append(acts, c18Act{Kind: "close"})
+			} else if it.Leave != "" {
+				acts = append(acts, c18Act{Kind: "leave-" + it.Leave, At: at(it.LeaveAt)})
 			}
 			e.addPeer(it, l.dialKey(), acts, want)
+		case "raw":
+			acts := []c18Act{{Kind: "dial", At: at(it.Start)}}
+			if len(it.pre) > 0 {
+				acts = append(acts, c18Act{Kind: "write", Data: it.pre})
+			}
+			if it.Leave != "" {
+				acts = append(acts, c18Act{Kind: "leave-" + it.Leave, At: at(it.LeaveAt)})
+			}
+			e.addPeer(it, l.dialKey(), acts, 0)
 		default:
-			e.addPeer(it, l.dialKey(), []c18Act{{Kind: "call", At: at(it.Start)}}, 0)
+			acts := []c18Act{{Kind: "call", At: at(it.Start)}}
+			if it.Leave != "" {
+				acts = append(acts, c18Act{Kind: "leave-" + it.Leave, At: at(it.LeaveAt)})
+			}
+			e.addPeer(it, l.dialKey(), acts, 0)
 		}
 	}
 	e.d.Hint(e.base.Add(sc.At))
@@ -1352,6 +1576,8 @@ func (e *c18Env) peerOf(it *c18Item) *c18Peer {
 // outcome says whether the item completed normally, and if not, how it failed.
 func (e *c18Env) outcome(it *c18Item, p *c18Peer) (ok bool, how string) {
 	switch it.Kind {
+	case "raw":
+		return false, "not-judged"
 	case "http":
 		st, body, complete := c18ParseHTTP(p.recv)
 		switch {
@@ -1436,6 +1662,9 @@ func (e *c18Env) judge() {
 			if it.entered && it.before && (it.Forever || e.base.Add(it.finish()).After(deadline)) {
 				open = append(open, it.ID+"("+it.label()+")")
 			}
+			if p := e.peerOf(it); it.Kind == "raw" && p.openAtCall() && (it.Leave == "" || !e.base.Add(it.LeaveAt).Before(deadline)) {
+				open = append(open, it.ID+"("+it.label()+" connection to the "+sc.Listeners[it.Lis].Kind+" listener)")
+			}
 		}
 		r.Fail("shutdown-return", "not-returned-by-deadline servers="+which,
 			"Shutdown(%s) called at %s %s; servers whose Shutdown was still running at the deadline: %v; work still open at the deadline: %v",
@@ -1444,9 +1673,16 @@ func (e *c18Env) judge() {
 
 	for _, it := range sc.Items {
 		p := e.peerOf(it)
+		if it.Kind == "raw" {
+			e.judgeRaw(it, p, deadline)
+			continue
+		}
 		f := e.base.Add(it.finish())
 		ok, how := e.outcome(it, p)
 		served := it.entered || len(p.recv) > 0 || it.code == "OK"
+		if it.Leave != "" && it.Kind != "http" && it.Kind != "tcp" && it.Kind != "sni" {
+			how = "client-left" // which status the call ends with is grpc-go's business
+		}
 		r.Tracef("item %s %s attempt=%s entered=%v before=%v finish=%s forever=%v ok=%v %s dialerr=%v", it.ID, it.label(), p.phase, it.entered, it.before,
 			it.finish(), it.Forever, ok, how, p.dialErr != nil)
 
@@ -1485,6 +1721,9 @@ func (e *c18Env) judge() {
 			}
 			if it.Stall {
 				r.Probe("open_forever_blocked_in_write_" + it.label())
+			}
+			if p.leftPhase != "" && p.leftPhase != "before" && e.base.Add(it.LeaveAt).Before(deadline) {
+				r.Probe("open_forever_client_left_during_drain_" + it.Leave + "_" + it.label())
 			}
 		case !f.Before(deadline):
 			r.Nontrivial()
@@ -1532,6 +1771,51 @@ func (e *c18Env) judge() {
 }
 
 func l18Kind(sc *c18Scenario, it *c18Item) string { return sc.Listeners[it.Lis].Kind }
+
+// openAtCall says whether the client's connection was established before the Shutdown call and the client
+// had not gone away by then.
+func (p *c18Peer) openAtCall() bool {
+	return p.conn != nil && p.phase == "before" && p.leftPhase != "before"
+}
+
+// judgeRaw: a connection that has not spoken the protocol is open work for clause (3), a connection
+// attempt for clause (1), and never an item of clause (2) (no backend ever has it in hand).
+func (e *c18Env) judgeRaw(it *c18Item, p *c18Peer, deadline time.Time) {
+	r, sc := e.r, e.sc
+	l := sc.Listeners[it.Lis]
+	r.Tracef("item %s %s cut=%s listener=%s attempt=%s connected=%v leave=%s at=%s left=%s", it.ID, it.label(), it.Cut, l.Kind, p.phase,
+		p.conn != nil, it.Leave, it.LeaveAt, p.leftPhase)
+	if p.phase == "after" {
+		r.Probe("attempt_after_begun")
+		r.Probe("raw_attempt_after_begun")
+		if len(p.recv) > 0 {
+			// the listener greeted the connection (a gRPC server sends its SETTINGS frame at once)
+			r.Fail("accepts-after-shutdown", l.Kind,
+				"raw connection %s (%s) to %s at %s, after Shutdown had begun (called at %s), was accepted and received %d bytes from the listener",
+				it.ID, it.Pre, l.Addr, it.Start, e.t0.Sub(e.base), len(p.recv))
+		} else if p.dialErr != nil {
+			r.Probe("attempt_after_begun_refused")
+		}
+		return
+	}
+	if p.phase == "gray" {
+		r.Probe("attempt_between_call_and_begun")
+	}
+	if !p.openAtCall() {
+		if p.leftPhase == "before" {
+			r.Probe("raw_came_and_went_before_shutdown_" + l.Kind)
+		}
+		return
+	}
+	r.Nontrivial()
+	r.Probe("open_raw_" + it.Pre + "_" + l.Kind)
+	switch {
+	case it.Leave == "" || !e.base.Add(it.LeaveAt).Before(deadline):
+		r.Probe("open_raw_until_the_deadline_" + l.Kind)
+	case p.leftPhase != "":
+		r.Probe("open_raw_client_left_during_drain_" + it.Leave + "_" + l.Kind)
+	}
+}
 
 // ---------------------------------------------------------------- fabio's transparent gRPC proxy
 
